@@ -112,7 +112,7 @@ def judge(case, raw, cmpr, model):
             # the text writer on the original / of the scanner belong to C10, crashes while executing the original
             # context are the generator's problem.
             st = d.get('@', 'output')
-            if st in ('write-module-first', 'write', 'write2', 'read', 'output-after-read', 'rewrite', 'file-io', 'exec-after-read', 'probe-after-read'):
+            if st in ('write-module-first', 'write', 'write2', 'read', 'output-after-read', 'rewrite', 'file-io', 'exec-after-read', 'probe-after-read', 'used-read'):
                 bad.append(('crash:' + st, '%s build: crash (%s) in stage %s' % (tag, d['CRASH'], st)))
                 continue
             if st in ('output', 'exec-original'):
@@ -161,6 +161,22 @@ def judge(case, raw, cmpr, model):
         if 'RM' in d and (d.get('RM') != 'ok' or d.get('TM') != '='):
             bad.append(('module-writer-differs', '%s: modules written one by one (MIR_write_module) and read with MIR_read do not '
                         'print as the original context: %s' % (tag, d.get('RM'))))
+        if d.get('UR', 'ok') != 'ok':
+            # reads into USED contexts (round 3): the same bytes read by a context that has scanned text, read binaries, written
+            # and built modules before must give the modules the writing context printed
+            ur = d.get('UR')
+            hist, _, rest = ur.partition(':')
+            if rest.startswith('ERR:'):
+                what = 'is rejected: ' + rest[4:]
+            else:
+                try:
+                    got = bytes.fromhex(rest).decode('latin-1')
+                except ValueError:
+                    got = rest
+                what = 'differs: ' + K.first_diff(K.text_of(d, 'T0'), got)
+            bad.append(('read-into-used-context-differs', '%s: MIR_read of the written bytes into a context with the history `%s` '
+                        '(s = scan of the text, S = scan of a fixed text with data items, b = module built through the API, r = the '
+                        'same read before, w = write, o = output) %s' % (tag, hist, what)))
         if d.get('RW', '=') != '=':
             bad.append(('rewrite-differs-after-read', '%s: the context read back serialises to different bytes than it was read from' % tag))
         if 'X0' in d and d.get('X1') != d.get('X0'):
